@@ -3,7 +3,11 @@
 # Confirms a seeded change independently (suite passes with it, demo fails with it and passes without it) in a scratch copy,
 # then applies it to /repo, runs ./check <ID> (quick) and undoes it. Prints a summary; copies the artefacts to seeded/<name>/.
 set -u
-ID=$1; SD=$2; shift 2; DEMOARGS="${*:--run . }"
+ID=$1; SD=$2; shift 2
+# by default only the demonstration's own tests are run (the repository's TestRequest* tests share
+# /tmp/rstest.sock and collide when several seeds are evaluated side by side)
+DEMOTESTS=$(grep -ho "^func Test[A-Za-z0-9_]*" "$SD"/*_test.go 2>/dev/null | sed 's/^func //' | sort -u | paste -sd'|')
+DEMOARGS="${*:--run ^($DEMOTESTS)\$ }"
 NAME=$(basename "$(dirname "$SD")")
 cd "$(dirname "$0")/.."
 export GOFLAGS=-mod=mod GOPROXY=off
@@ -17,9 +21,10 @@ echo "== demo on the unchanged tree (must pass)"; r0=$(run_demo clean); echo "ex
 ( cd "$D" && go build ./... ) || { echo "DOES NOT BUILD"; exit 3; }
 echo "== existing suite with the change (must pass)"; ( cd "$D" && go test -vet=off -count=1 -timeout 300s ./... 2>&1 | grep -v "no test files" | tail -4 ); 
 echo "== demo with the change (must fail)"; r1=$(run_demo seeded); echo "exit $r1"; tail -5 "$D/../demo.seeded.log" | cut -c1-300
-echo "== ./check $ID against /repo with the change applied"
-git -C /repo apply "$SD/patch.diff" || { echo "git apply to /repo failed"; exit 3; }
-OUT=$(./check "$ID" --tier quick 2>&1); RC=$?
-git -C /repo checkout -- . ; git checkout -- evidence 2>/dev/null
+echo "== ./check $ID against the scratch copy of /repo with the change applied"
+# (the scratch copy, not /repo itself, so that several seeds can be evaluated side by side and
+#  a sweep running against /repo is not disturbed; tools/seeded_all.sh applies to /repo proper)
+OUT=$(VERIF_REPO="$D" ./check "$ID" --tier ${SEED_TIER:-quick} 2>&1); RC=$?
+git checkout -- evidence/$ID.json 2>/dev/null
 echo "$OUT" | grep -E "VIOLATION|INCONCLUSIVE|OK property|observed" | head -6; echo "$OUT" | grep "key=" | head -4 | cut -c1-400
 echo "RESULT id=$ID demo_clean_exit=$r0 demo_seeded_exit=$r1 check_rc=$RC"
